@@ -105,6 +105,14 @@ Definition check_closed (d t : graph) (ex : list (N * N)) (roots allowed : list 
               (roots ++ nodes_of d ++ nodes_of t)
   end.
 
+(* every root is a function whose body is part of the graph *)
+Definition check_roots_defined (d : graph) (roots : list N) : bool :=
+  let dm := build d in forallb (definedb dm) roots.
+
+(* every group is non-empty and consists of roots *)
+Definition check_groups (groups : list (N * list N)) (roots : list N) : bool :=
+  forallb (fun gl => match snd gl with [] => false | _ => forallb (fun e => mem_list e roots) (snd gl) end) groups.
+
 (* every excluded edge points into the abort-only set *)
 Definition check_excluded (ex : list (N * N)) (abort_only : list N) : bool :=
   forallb (fun p => mem_list (snd p) abort_only) ex.
